@@ -116,11 +116,11 @@ Section Loops.
   Notation lstep := (load_step md_merge lock_dec parse_values).
   Notation lloop := (load_loop md_merge lock_dec parse_values).
 
-  Lemma lloop_app ne l1 : forall st l2,
-    lloop ne st (l1 ++ l2) = match lloop ne st l1 with inl e => inl e | inr st' => lloop ne st' l2 end.
+  Lemma lloop_app l1 : forall st l2,
+    lloop st (l1 ++ l2) = match lloop st l1 with inl e => inl e | inr st' => lloop st' l2 end.
   Proof.
     induction l1 as [|f l1 IH]; intros st l2; simpl; auto.
-    destruct (lstep ne st f); auto.
+    destruct (lstep st f); auto.
   Qed.
 
   Lemma load_meta_other om l :
@@ -131,17 +131,17 @@ Section Loops.
   Qed.
 
   (* a template: name below templates/ *)
-  Lemma lstep_template ne om lk vs sch tpl fls sub f :
+  Lemma lstep_template om lk vs sch tpl fls sub f :
     String.prefix "templates/" (f_name f) = true ->
-    lstep ne (mkLS om lk vs sch tpl fls sub) f = inr (mkLS om lk vs sch (tpl ++ [f]) fls sub).
+    lstep (mkLS om lk vs sch tpl fls sub) f = inr (mkLS om lk vs sch (tpl ++ [f]) fls sub).
   Proof.
     intros H. destruct (prefix_first "templates/" (f_name f) "t" "emplates/" eq_refl H) as (s' & Hs).
     unfold load_step. rewrite H. rewrite Hs. reflexivity.
   Qed.
 
-  Lemma lloop_templates ne om lk vs sch fls sub l : forall tpl,
+  Lemma lloop_templates om lk vs sch fls sub l : forall tpl,
     Forall (fun f => String.prefix "templates/" (f_name f) = true) l ->
-    lloop ne (mkLS om lk vs sch tpl fls sub) l = inr (mkLS om lk vs sch (tpl ++ l) fls sub).
+    lloop (mkLS om lk vs sch tpl fls sub) l = inr (mkLS om lk vs sch (tpl ++ l) fls sub).
   Proof.
     induction l as [|f l IH]; intros tpl HF; cbn [load_loop].
     - now rewrite app_nil_r.
@@ -150,19 +150,19 @@ Section Loops.
   Qed.
 
   (* any other file *)
-  Lemma lstep_file ne om lk vs sch tpl fls sub f :
+  Lemma lstep_file om lk vs sch tpl fls sub f :
     reserved (f_name f) = false -> String.prefix "templates/" (f_name f) = false ->
     String.prefix "charts/" (f_name f) = false ->
-    lstep ne (mkLS om lk vs sch tpl fls sub) f = inr (mkLS om lk vs sch tpl (fls ++ [f]) sub).
+    lstep (mkLS om lk vs sch tpl fls sub) f = inr (mkLS om lk vs sch tpl (fls ++ [f]) sub).
   Proof.
     unfold reserved. rewrite !orb_false_iff. intros (((((H1 & H2) & H3) & H4) & H5) & H6) Ht Hc.
     unfold load_step. now rewrite H1, H2, H3, H4, H5, H6, Ht, Hc.
   Qed.
 
-  Lemma lloop_files ne om lk vs sch tpl sub l : forall fls,
+  Lemma lloop_files om lk vs sch tpl sub l : forall fls,
     Forall (fun f => reserved (f_name f) = false /\ String.prefix "templates/" (f_name f) = false /\
                      String.prefix "charts/" (f_name f) = false) l ->
-    lloop ne (mkLS om lk vs sch tpl fls sub) l = inr (mkLS om lk vs sch tpl (fls ++ l) sub).
+    lloop (mkLS om lk vs sch tpl fls sub) l = inr (mkLS om lk vs sch tpl (fls ++ l) sub).
   Proof.
     induction l as [|f l IH]; intros fls HF; cbn [load_loop].
     - now rewrite app_nil_r.
@@ -171,9 +171,9 @@ Section Loops.
   Qed.
 
   (* the values.yaml documents *)
-  Lemma lloop_values ne om lk sch tpl fls sub l : forall vs r,
+  Lemma lloop_values om lk sch tpl fls sub l : forall vs r,
     vals_fold parse_values vs l = Some r ->
-    lloop ne (mkLS om lk vs sch tpl fls sub) (map (fun f => mkFile "values.yaml" (f_data f)) l)
+    lloop (mkLS om lk vs sch tpl fls sub) (map (fun f => mkFile "values.yaml" (f_data f)) l)
     = inr (mkLS om lk r sch tpl fls sub).
   Proof.
     induction l as [|f l IH]; intros vs r H; cbn [load_loop map vals_fold] in *.
@@ -309,7 +309,7 @@ Section Roundtrip.
             | None => Some []
             end = Some (map (fun x => let '(name, fn, body) := x in tar_entry name body)
                             (map (triple cn) match sch with Some s => [("values.schema.json", s)] | None => [] end))) as ->.
-    { destruct sch as [s|]; [|reflexivity]. destruct Hsch as [-> _]. reflexivity. }
+    { destruct sch as [s|]; [|reflexivity]. rewrite Hsch. reflexivity. }
     rewrite (map_map_entries cn (path_join "" cn) tpl).
     2:{ apply Forall_forall. intros f Hf. apply Hj. rewrite forallb_forall in Htpl.
         now destruct (wf_template_props f (Htpl f Hf)). }
@@ -402,7 +402,7 @@ Section Roundtrip.
   Notation lstep := (load_step md_merge lock_dec parse_values).
   Notation lloop := (load_loop md_merge lock_dec parse_values).
 
-  Lemma lstep_chartyaml ne st f : f_name f = "Chart.yaml" -> lstep ne st f = inr st.
+  Lemma lstep_chartyaml st f : f_name f = "Chart.yaml" -> lstep st f = inr st.
   Proof. intros H. unfold load_step. destruct st. now rewrite H. Qed.
 
   Definition mk2 (p : string * string) : file := mkFile (fst p) (snd p).
@@ -416,9 +416,9 @@ Section Roundtrip.
     now rewrite !map_file_eta.
   Qed.
 
-  Lemma lloop_lock ne c om vs sch tpl fls sub :
+  Lemma lloop_lock c om vs sch tpl fls sub :
     (m_api (c_meta c) = "v2") \/ (m_api (c_meta c) = "v1" /\ m_deps (c_meta c) = "" /\ c_lock c = None) ->
-    lloop ne (mkLS om None vs sch tpl fls sub) (map mk2 (lock_seg c)) = inr (mkLS om (c_lock c) vs sch tpl fls sub).
+    lloop (mkLS om None vs sch tpl fls sub) (map mk2 (lock_seg c)) = inr (mkLS om (c_lock c) vs sch tpl fls sub).
   Proof.
     intros Hapi. unfold lock_seg. destruct Hapi as [->|(-> & _ & ->)]; simpl; [|reflexivity].
     destruct (c_lock c) as [l|]; simpl; [|reflexivity].
@@ -426,11 +426,9 @@ Section Roundtrip.
   Qed.
 
   Lemma lloop_schema c om lk vs tpl fls sub :
-    match c_schema c with Some s => json_valid s = true /\ s <> "" | None => True end ->
-    lloop true (mkLS om lk vs None tpl fls sub) (map mk2 (schema_seg c)) = inr (mkLS om lk vs (c_schema c) tpl fls sub).
+    lloop (mkLS om lk vs None tpl fls sub) (map mk2 (schema_seg c)) = inr (mkLS om lk vs (c_schema c) tpl fls sub).
   Proof.
-    unfold schema_seg. destruct (c_schema c) as [s|]; simpl; [|reflexivity].
-    intros [_ Hne]. unfold load_step. simpl. apply String.eqb_neq in Hne. now rewrite Hne.
+    unfold schema_seg. destruct (c_schema c) as [s|]; simpl; reflexivity.
   Qed.
 
   Lemma reserved_not_chartyaml n : reserved n = false -> String.eqb n "Chart.yaml" = false.
@@ -441,7 +439,7 @@ Section Roundtrip.
 
   Lemma files_of_saved c fuel :
     wf_chart parse_values json_valid sanitize is_semver rest_valid c ->
-    LFILES (S fuel) true (loaded_files c) =
+    LFILES (S fuel) (loaded_files c) =
     inr (Chart (c_meta c) (c_lock c) (loaded_files c) (c_values c) (c_schema c) (c_templates c) (c_files c) []).
   Proof.
     intros [Hval Hapi Hname Hvals Hsch Htpl Hfls Hdeps].
@@ -471,11 +469,11 @@ Section Roundtrip.
     rewrite (load_meta_other md_merge _ rest Hrest).
     cbn [load_loop]. rewrite lstep_chartyaml by reflexivity.
     unfold rest. rewrite lloop_app.
-    rewrite (lloop_lock true c _ _ _ _ _ _ Hapi). cbv beta iota. rewrite lloop_app.
-    rewrite (lloop_values md_merge lock_dec parse_values true _ _ _ _ _ _ (raw_values c) None (c_values c) Hvals). cbv beta iota. rewrite lloop_app.
-    rewrite (lloop_schema c _ _ _ _ _ _ Hsch). cbv beta iota. rewrite lloop_app.
-    rewrite (lloop_templates md_merge lock_dec parse_values true _ _ _ _ _ _ (c_templates c) [] HT). cbv beta iota.
-    rewrite (lloop_files md_merge lock_dec parse_values true _ _ _ _ _ _ (c_files c) [] HF). cbv beta iota.
+    rewrite (lloop_lock c _ _ _ _ _ _ Hapi). cbv beta iota. rewrite lloop_app.
+    rewrite (lloop_values md_merge lock_dec parse_values _ _ _ _ _ _ (raw_values c) None (c_values c) Hvals). cbv beta iota. rewrite lloop_app.
+    rewrite (lloop_schema c). cbv beta iota. rewrite lloop_app.
+    rewrite (lloop_templates md_merge lock_dec parse_values _ _ _ _ _ _ (c_templates c) [] HT). cbv beta iota.
+    rewrite (lloop_files md_merge lock_dec parse_values _ _ _ _ _ _ (c_files c) [] HF). cbv beta iota.
     cbn [ls_meta ls_lock ls_values ls_schema ls_templates ls_files ls_sub app map]. rewrite Hval.
     cbn [dedup sort_strs fold_right]. reflexivity.
   Qed.
@@ -566,8 +564,8 @@ Section Ignore.
       constructor; auto.
   Qed.
 
-  Lemma lstep_incl ne st f st' :
-    lstep ne st f = inr st' ->
+  Lemma lstep_incl st f st' :
+    lstep st f = inr st' ->
     forall x, In x (ls_templates st') \/ In x (ls_files st') -> x = f \/ In x (ls_templates st) \/ In x (ls_files st).
   Proof.
     unfold load_step. destruct st as [om lk vs sch tpl fls sub]. intros H x Hx.
@@ -578,29 +576,29 @@ Section Ignore.
       rewrite ?in_app_iff in *; simpl in *; intuition.
   Qed.
 
-  Lemma lloop_incl ne files : forall st st',
-    lloop ne st files = inr st' ->
+  Lemma lloop_incl files : forall st st',
+    lloop st files = inr st' ->
     forall x, In x (ls_templates st') \/ In x (ls_files st') -> In x files \/ In x (ls_templates st) \/ In x (ls_files st).
   Proof.
     induction files as [|f files IH]; intros st st' H x Hx; simpl in H.
     - inversion H; subst. auto.
-    - destruct (lstep ne st f) as [|st1] eqn:E; [discriminate|].
+    - destruct (lstep st f) as [|st1] eqn:E; [discriminate|].
       destruct (IH _ _ H x Hx) as [Hi|Hi]; [left; now right|].
-      destruct (lstep_incl _ _ _ _ E x Hi) as [->|Hj]; [left; now left|auto].
+      destruct (lstep_incl _ _ _ E x Hi) as [->|Hj]; [left; now left|auto].
   Qed.
 
-  Lemma load_files_shape fuel ne files c :
-    LFILES fuel ne files = inr c ->
+  Lemma load_files_shape fuel files c :
+    LFILES fuel files = inr c ->
     c_raw c = files /\ (forall x, In x (c_templates c) \/ In x (c_files c) -> In x files).
   Proof.
     destruct fuel; [discriminate|]. cbn [load_files]. intros H.
     destruct (load_meta md_merge None files) as [|om]; [discriminate|].
-    destruct (lloop ne (mkLS om None None None [] [] []) files) as [|st] eqn:El; [discriminate|].
+    destruct (lloop (mkLS om None None None [] [] []) files) as [|st] eqn:El; [discriminate|].
     destruct (ls_meta st); [|discriminate].
     destruct (validate sanitize is_semver rest_valid m); [|discriminate].
     match type of H with match ?e with _ => _ end = _ => destruct e end; [discriminate|].
     inversion H; subst; simpl. split; auto.
-    intros x Hx. destruct (lloop_incl _ _ _ _ El x Hx) as [|[[]|[]]]; auto.
+    intros x Hx. destruct (lloop_incl _ _ _ El x Hx) as [|[[]|[]]]; auto.
   Qed.
 
   Lemma ignored_absent fuel walk :
@@ -613,7 +611,7 @@ Section Ignore.
     - now rewrite dir_files_filter.
     - intros c H. destruct (dir_files maxf ignored walk) as [|fs] eqn:E; [discriminate|].
       pose proof (dir_files_kept _ _ E) as Hk.
-      destruct (load_files_shape _ _ _ _ H) as [Hraw Hin]. rewrite Hraw. split; auto.
+      destruct (load_files_shape _ _ _ H) as [Hraw Hin]. rewrite Hraw. split; auto.
       intros f Hf. rewrite Forall_forall in Hk. apply Hk. auto.
   Qed.
 End Ignore.
